@@ -65,7 +65,12 @@ class Scen:
             tail = bytes((i * 3 + 1) % 256 for i in range(rest)); parts.append(lit(tail)); data += tail
         return ', '.join(parts), data
     def program(self):
-        return ('\n'.join(self.decl + self.stmts) + '\n').encode()
+        src = ('\n'.join(self.decl + self.stmts) + '\n').encode()
+        if self.r.chance(1, 3):
+            # C11 says it makes no difference: mandatory parameters passed by name (in either order) instead of by position
+            from .gen import Lib, name_mandatory
+            src = name_mandatory(src, Lib(), self.r)
+        return src
 
     # ---- builders; each appends statements and expectations
     def tcp(self, nops=4, wrap=None):
@@ -131,12 +136,12 @@ class Scen:
         r = self.r; s = (addr(r), r.below(65536)); d = (addr(r), r.below(65536)); b = payload(r)
         self.emit('ipv4::udp::unicast(%s:%d, %s/%d%s, %s)' % (ip(s[0]), s[1], ip(d[0]), d[1], self.rawarg(), lit(b)),
                   [dict(src=s[0], dst=d[0], sport=s[1], dport=d[1], proto=17, id=0, ttl=64, off=0, evil=False, df=False, mf=False, l4=('udp', False), eth='ip')], wrap)
-    def broadcast(self, override=None):
+    def broadcast(self, override=None, wrap=None):
         r = self.r; s = (r.below(2 ** 32), 68); d = (0xffffffff, 67); b = payload(r)
         ov = ', srcip: %s' % ip(override) if override is not None else ''
         self.emit('ipv4::udp::broadcast(%s:%d, %s:%d%s%s, %s)' % (ip(s[0]), s[1], ip(d[0]), d[1], ov, self.rawarg(), lit(b)),
                   [dict(src=override if override is not None else s[0], dst=d[0], sport=68, dport=67, proto=17, id=0, ttl=64, off=0, evil=False, df=False, mf=False,
-                        l4=('udp', False), eth=('bcast', s[0]))])
+                        l4=('udp', False), eth=('bcast', s[0]))], wrap)
     def dnshost(self):
         r = self.r; cl = r.below(2 ** 32); ns = r.choice([0x01010101, r.below(2 ** 32)])
         ips = [ip(r.below(2 ** 32)) for _ in range(r.below(4))]
@@ -237,10 +242,12 @@ def build(r, raw, kinds=None, quick=True):
             w2 = s.tunnel_wrap(r.choice(['vxlan', 'gre', 'erspan1', 'erspan2']))
             w1 = w
             w = lambda st, ex: w2(*w1(st, ex))
-        which = r.below(3)
+        which = r.below(5)
         if which == 0: s.tcp(2 + r.below(3), wrap=w)
         elif which == 1: s.udp(2, wrap=w, sizes=[0, 1, 9, 100])
-        else: s.icmp(2, wrap=w)
+        elif which == 2: s.icmp(2, wrap=w)
+        elif which == 3: s.broadcast(None, wrap=w); s.broadcast(r.below(2 ** 32), wrap=w)      # a broadcast frame inside a tunnel: the outer header is still unicast
+        else: s.unicast(wrap=w)
     return k, s
 
 
